@@ -618,7 +618,10 @@ SnapViol(s, R) ==
   LET e == s.ep
       nd == newData[e]
       \* new user data is sent only within cwnd and the peer's advertised window; probe exception
-      badWindow == {i \in DOMAIN nd : nd[i].before # 0 /\ ~(nd[i].after <= s.cwnd /\ nd[i].after - nd[i].allow <= arw[e])}
+      \* (a step in which a loss signal cut the window -- T3 expiry or entry into fast recovery -- may have sent the
+      \* new data before the cut: several timers can expire at the same virtual instant; the larger window applies)
+      cwAdm == IF sn[e] # NoSnap /\ (s.nt3 > sn[e].nt3 \/ (s.infr /\ ~sn[e].infr)) THEN MaxI(sn[e].cwnd, s.cwnd) ELSE s.cwnd
+      badWindow == {i \in DOMAIN nd : nd[i].before # 0 /\ ~(nd[i].after <= cwAdm /\ nd[i].after - nd[i].allow <= arw[e])}
       \* the strong completeness check: the step delivered one packet of DATA chunks only
       p  == IF step.ev = "rx" /\ step.pid \in DOMAIN pkt THEN pkt[step.pid] ELSE [kinds |-> <<>>, forged |-> TRUE, genuine |-> FALSE]
       onlyData == step.ev = "rx" /\ step.to = e /\ ~p.forged /\ p.kinds # <<>> /\ \A i \in DOMAIN p.kinds : p.kinds[i] \in DataKinds
